@@ -5,6 +5,12 @@ from props import sierra_common as sc
 
 def run(ctx):
     r = sc.run_common(ctx, "C15.v", ["C15_sound", "C15_merge", "C15_closed"])
+    dd = [f for f in r["static_failures"] if f["why"].startswith("dup_drop")]
+    for f in dd[:5]:
+        # an accepted program in which a value can be discarded/copied although its type forbids it
+        ctx.violation("accepted Sierra program declares drop/dup for a type that does not allow it: " + f["why"],
+                      dict(f, replay_cmd="./check C15 --tier %s" % ctx.tier), found_input=True)
+    ctx.cov["dup_drop_failures"] = len(dd)
     for m in r["model_rejects"][:5]:
         # the property's own formula: compile(s) == Ok  but the (proved sound) independent checker rejects s
         ctx.violation("the real compiler accepts Sierra programs that the verified typing/linearity checker rejects: %s"
@@ -20,8 +26,9 @@ def run(ctx):
         "targets are branch_align statements, and returns leave nothing behind (C15_sound, C15_merge), via the closure "
         "theorem C15_closed about the in-order pass. Tie (checked every run, exploration): every program the REAL "
         "compiler accepts - corpus programs and mutants - must be accepted by the model (the property's formula "
-        "compile(s)=Ok => checker(s)=Ok). dup/drop type restrictions are enforced by libfunc specialization in the "
-        "registry and are not part of the model.",
+        "compile(s)=Ok => checker(s)=Ok). That drop/dup are specialised only for droppable/duplicatable types is not "
+        "part of the Coq model; it is checked on every accepted program (corpus and mutants, incl. mutants that "
+        "re-type libfunc declarations) against the registry's TypeInfo.",
         sc.TRUSTED,
         "make coq/Sierra && coqc Props/C15.v ; harness/h15 <corpus> -> coqc out/C15/cases/acc_*.v",
     )
